@@ -38,6 +38,9 @@ def _from_code_under_test(e):
     from harness / engine code (then it is an engine error: undecided, never a verdict)."""
     if getattr(e, "pcv_semantic", False):
         return True
+    import re
+    if re.search(r"pcv\.|contracts\.|\bSym[A-Z]\w*|Opaque|Ghost|Guarded|JsonOf|ReprOf|StrOf", "%s %s" % (type(e).__name__, e)):
+        return False          # a proxy reached code the engine does not model (e.g. a type dispatch on type(x)): a limit of the engine, not an outcome
     tb = traceback.extract_tb(e.__traceback__)
     if not tb:
         return False
